@@ -405,7 +405,15 @@ def contract_only(repo: Repo) -> List[Ob]:
                 good = False
                 why = "the switch is read outside an `if` test"
                 if isinstance(st, ast.If) and any(x is n for x in ast.walk(st.test)):
-                    only = all(isinstance(b, ast.Expr) and method_call(b.value) is not None and method_call(b.value)[1] == "contract" for b in st.body)
+                    def _neutral(b):
+                        if not (isinstance(b, ast.Expr) and isinstance(b.value, ast.Call)):
+                            return isinstance(b, ast.Pass)
+                        mc2 = method_call(b.value)
+                        if mc2 is not None and mc2[1] == "contract":
+                            return True
+                        d = dotted(b.value.func) or ""
+                        return d.split(".")[0] in ("logger", "logging", "log") or d == "print"
+                    only = all(_neutral(b) for b in st.body) and any(isinstance(b, ast.Expr) and method_call(b.value) and method_call(b.value)[1] == "contract" for b in st.body)
                     if only and not st.orelse:
                         good = True
                     else:
@@ -538,6 +546,12 @@ def check_sandwich_literal(s: str) -> Optional[str]:
     return f"output `{Z}` is not the state with every contracted index replaced by the paired free operator index"
 
 
+def _root(e: ast.AST) -> Optional[str]:
+    while isinstance(e, (ast.Attribute, ast.Subscript, ast.Call)):
+        e = e.value if isinstance(e, (ast.Attribute, ast.Subscript)) else (e.func if not e.args else (e.func.value if isinstance(e.func, ast.Attribute) and not isinstance(e.func.value, ast.Name) else (e.args[0] if dotted(e.func) and (dotted(e.func).split(".")[0] in ("jnp", "np", "jax", "numpy")) else e.func)))
+    return e.id if isinstance(e, ast.Name) else None
+
+
 @rule("SANDWICH")
 def sandwich(repo: Repo) -> List[Ob]:
     obs: List[Ob] = []
@@ -572,8 +586,10 @@ def sandwich(repo: Repo) -> List[Ob]:
                     ca = is_conj(A)
                     if ca is not None and src(ca) == src(B):
                         obs.append(bad("SANDWICH", fi, key, props, n, "the *left* factor is conjugated and the right one is not: computes O* rho O^T"))
-                    else:
+                    elif _root(A) is not None and _root(A) == _root(B):
                         obs.append(bad("SANDWICH", fi, key, props, n, f"third einsum operand `{src(B)[:40]}` is not the complex conjugate of the first: O rho O^T instead of O rho O^dagger"))
+                    else:
+                        obs.append(skip("SANDWICH", fi, key, props, n, "three-operand einsum whose outer operands are unrelated: not a sandwich"))
                 elif src(c) != src(A):
                     obs.append(bad("SANDWICH", fi, key, props, n, f"right factor conjugates `{src(c)[:30]}` but the left factor is `{src(A)[:30]}`"))
                 else:
